@@ -572,11 +572,27 @@ func l1Diagnose(p *l1Prog, want, got *l1Obs) string {
 			}
 			a := int(w[k][0] - 'a')
 			val := g[k][2:]
+			wantVal := w[k][2:]
+			half := func(s string, i int) string { return strings.SplitN(s, "/", 2)[i] }
 			kind, writer := "inconsistent-read", -1
-			for j := i; j < len(p.Txs); j++ { // a value only a later (or the same) transaction produces
-				if want.Post[j][a] == val && (j == 0 || want.Post[j-1][a] != val) {
+			// a value only a later (or the same) transaction produces: the whole
+			// account state of that transaction (future-read) or only one half of
+			// it, i.e. a view into the middle of its update (dirty-read)
+			for j := i; j < len(p.Txs) && writer < 0; j++ {
+				prev := l1Initial(a)
+				if j > 0 {
+					prev = want.Post[j-1][a]
+				}
+				post := want.Post[j][a]
+				if post == prev {
+					continue
+				}
+				switch {
+				case post == val:
 					kind, writer = "future-read", j
-					break
+				case (half(val, 0) == half(post, 0) && half(val, 0) != half(wantVal, 0)) ||
+					(half(val, 1) == half(post, 1) && half(val, 1) != half(wantVal, 1)):
+					kind, writer = "dirty-read", j
 				}
 			}
 			if writer < 0 {
